@@ -7,7 +7,7 @@ MANIFEST = dict(
    note="Trusted: Lean kernel; axioms propext/Classical.choice/Quot.sound only; the Go harness, token codec and comparer. The container model is a hand transcription validated on generated cases, not for all inputs; Go representations outside the generated set (struct inputs to Object, map inputs to Struct, numeric-string record keys, Default/Prefault/Transform on the container itself, struct Partial, loose records over enum keys) are not modelled. Result values are not compared (verdicts only). Known deviations of today's code are listed in known-findings.txt (nil-like inputs never reach union/xor/intersection/lazy members; typed nil slices/maps rejected; catchall ignored in strip mode; intersection drops one-sided unrecognized_keys; lazy never asks targets whose Parse result type is unsupported; Slice/Array never ask a member that is not a core.ZodSchema (pipes were, until ff6dceb); Map/Set/Record/Struct never ask a member without a method named Parse). Which members a container can call is mirrored in the harness from the type assertions / reflective look-ups of types/*.go (cx.Asked). Record key schemas that rewrite the key are not generated.",
    design="DESIGN.md §5 C02; notes/C02.md")
 
-MODULES = ["Gozod.Proofs.C02", "Gozod.Proofs.C02Du"]
+MODULES = ["Gozod.Proofs.C02", "Gozod.Proofs.C02Du", "Gozod.Proofs.C02Checks"]
 THEOREMS = ["Gozod.C02." + t for t in [
     "c02_slice", "c02_array", "posOK_iff", "c02_tuple", "c02_map", "c02_set", "c02_record", "c02_object",
     "c02_struct", "c02_union", "c02_xor", "c02_inter_partial", "c02_du", "c02_du_missing", "c02_lazy_partial",
@@ -18,6 +18,9 @@ THEOREMS = ["Gozod.C02." + t for t in [
     # round 4: discriminated union over its option list (index construction, lookup THEN fallback)
     "discInsert_some", "discBuildFrom_some", "buildDiscMap_some", "buildDiscMap_none", "lookup_entries",
     "c02_du_law", "parseDUDecl_run", "c02_du_illformed", "c02_du_selects_one",
+    # round 4: container-level checks of every kind (Refine, Overwrite), validatePointer's pre-pass
+    "runOw_eq_run", "runOw_eq_run_noOverwrite", "sizeOK_custom_false", "sizeOK_cons_overwrite", "sizeOK_cons_custom_true",
+    "c02_slice_checks", "c02_overwrite_skipped_legacy", "runOw_issues_sub", "c02_refine_on_nil_false",
 ]]
 
 def split(line):
